@@ -30,6 +30,7 @@ func C02(r *core.Report) {
 	c14NoPooledAliasAs(r, "C02.R5")
 	c02TransactionAnswer(r)
 	c02PrefetchIsBestEffort(r)
+	hitConfirmedByIndex(r, "C02.R9")
 	r.Floor("C02.R8", 2)
 	for _, k := range []string{"main.(*Epoch).GetBlock", "main.(*Epoch).GetTransaction", "main.(*Epoch).GetNodeByCid", "main.(*Epoch).ReadAtFromCar"} {
 		if f := r.Anchor("C02.R7", k); f != nil {
